@@ -94,12 +94,12 @@ def run(pid, tier, seed):
     tbl = classes.ClassTable()
     try:
         mod, _ = pd.load("c03trip_%d" % (seed % 1000), tripwires.SOURCE)
-        reps = range(3 if quick else 80)
+        reps = range(11 if quick else 80)   # 11 = one round through every tripwire kind of the module
         for name, wl in WORKLOADS:
             for i in reps:
                 base = execute(mod, wl, i, False, 0, FAULTS[0], tbl)
                 for k in (0, 3, 10):
-                    for fault in (FAULTS if (i == 0 or not quick) else FAULTS[:1]):
+                    for fault in (FAULTS if (k == 0 or i == 0 or not quick) else FAULTS[:1]):
                         chk.evaluations += 1
                         got = execute(mod, wl, i, True, k, fault, tbl)
                         case = {"workload": name, "i": i, "k": k, "fault": fault[0]}
